@@ -260,6 +260,25 @@ def gxden(spec):
     raise ValueError(kind)
 
 
+def gparts(spec):
+    """Gallina expression of type list part (Model/C09InnerExec.v): the holder itself, or the parts of a sum tensor — the stored
+    representation (not the denotation), for the algorithm models of innerprod / norm"""
+    kind = spec["kind"]
+    shp = gnlist(spec["shape"])
+    if kind == "dense":
+        return f"[PDense (mkDense {shp} {gzlist(spec['data'])})]"
+    if kind == "sparse":
+        return f"[PSparse (mkSp {shp} {gnmat(spec['subs'])} {gzlist(spec['vals'])})]"
+    if kind == "ttensor":
+        return (f"[PTucker (mkT (mkDense {gnlist(spec['core_shape'])} {gzlist(spec['core'])}) ["
+                + "; ".join(gzmx(f) for f in spec["factors"]) + "])]")
+    if kind == "ktensor":
+        return f"[PKruskal (mkK {gzlist(spec['weights'])} [" + "; ".join(gzmx(f) for f in spec["factors"]) + "])]"
+    if kind == "sum":
+        return "(" + " ++ ".join(gparts(q) for q in spec["parts"]) + ")"
+    raise ValueError(kind)
+
+
 def frac(x):
     """float -> exact Fraction"""
     return F(float(x))
